@@ -46,6 +46,9 @@ type SignerDirect interface {
 
 // getVNormalized returns the original 27/28 parity
 func (s *SignatureData) getVNormalized(chainID int64) (byte, error) {
+	if s.V == nil || !s.V.IsInt64() {
+		return 0, fmt.Errorf("invalid V value in signature (chain ID = %d, V = %v)", chainID, s.V)
+	}
 	v := s.V.Int64()
 	var vB byte
 	switch v {
@@ -92,6 +95,9 @@ func (s *SignatureData) RecoverDirect(message []byte, chainID int64) (a *ethtype
 	signatureBytes[0], err = s.getVNormalized(chainID)
 	if err != nil {
 		return nil, err
+	}
+	if s.R == nil || s.S == nil || s.R.Sign() < 0 || s.S.Sign() < 0 || s.R.BitLen() > 256 || s.S.BitLen() > 256 {
+		return nil, fmt.Errorf("invalid R or S value in signature")
 	}
 	s.R.FillBytes(signatureBytes[1:33])
 	s.S.FillBytes(signatureBytes[33:65])
